@@ -1,8 +1,8 @@
 package worker
 
 import (
-	"os"
 	"fmt"
+	"os"
 	"testing"
 	"testing/synctest"
 
@@ -141,6 +141,11 @@ func runC03(t *testing.T, r *engine.Run) {
 				}
 				r.Logf("both twins of %s unsubscribe and re-subscribe EDS %s", p.sotw.name, victim)
 				r.Probe("client_resubscribe")
+				// ... and the two requests are delivered and answered before anything else happens (see above)
+				if !w.quiesce(inst, w.clients) {
+					r.Inconclusive = "no quiescence after client resubscribe"
+					return
+				}
 			}
 		}
 		m := wd.next(tp)
